@@ -64,9 +64,15 @@ def generate(rng, run, tier):
         i["consumer"] = rng.choice(["flat", "flat", "grouped", "to_graph", "plugin"])
         i["integration"] = rng.choice(["generic", "generic", "rdflib"])
         i["frontend"] = rng.choice(["bytesio", "bytesio", "raw", "buffered"])
+        if i.get("template") == "big_frame":
+            i["frontend"] = rng.choice(["raw", "raw", "buffered", "bytesio"])
         if i.get("template") == "many_frames" and i["integration"] == "rdflib" and i["consumer"] == "grouped":
             # one rdflib Graph/Dataset per frame by design; constructing one costs ~0.2 ms in rdflib itself
             i["count"] = min(i["count"], 2000)
+    if run == 5:
+        # one fixed heavy case per invocation: a valid 6 MB frame arriving in 64-byte pieces (work must stay linear)
+        inputs[0] = {"kind": "hostile", "template": "big_frame", "seed": 5, "delimited": True, "size": 6_000_000,
+                     "chunk": 64, "consumer": "flat", "integration": "generic", "frontend": "raw"}
     if run == 3:
         # one fixed heavy case per invocation (both tiers): ~100 KB of declarations that all use one label
         inputs[0] = {"kind": "hostile", "template": "many_namespaces", "seed": 3, "delimited": True, "count": 4500,
@@ -79,7 +85,7 @@ SIZES = [4097, 5000, 1 << 16, 1 << 20, 1 << 24, 1 << 28, (1 << 31) - 1, (1 << 32
 
 def gen_hostile(rng):
     t = rng.choice(["table_sizes", "table_sizes", "frame_length", "nesting", "string_length", "options_position",
-                    "many_frames", "entry_ids", "long_varint", "literal_magnitude", "many_namespaces"])
+                    "many_frames", "entry_ids", "long_varint", "literal_magnitude", "many_namespaces", "big_frame"])
     h = {"kind": "hostile", "template": t, "seed": rng.randrange(1 << 30), "delimited": rng.random() < 0.7}
     if t == "table_sizes":
         h["which"] = rng.choice(["names", "prefixes", "datatypes", "all"])
@@ -99,6 +105,10 @@ def gen_hostile(rng):
     elif t == "many_frames":
         h["count"] = rng.choice([1000, 100000])
         h["variant"] = rng.choice(["empty", "empty_then_valid", "tiny_rows"])
+    elif t == "big_frame":
+        # a VALID stream with one large frame (one long literal), delivered in small pieces
+        h["size"] = rng.choice([20_000, 200_000])
+        h["chunk"] = rng.choice([1, 7, 64, 1024])
     elif t == "many_namespaces":
         # a version-2 stream that is nothing but namespace declarations
         h["count"] = rng.choice([10, 300, 1200])
@@ -264,6 +274,11 @@ def build_hostile(rec, rng) -> bytes:
         first = wire.Frame([wire.enc_row(("options", _opts()))]).encode()
         tiny = wire.Frame([wire.enc_row(("name", 0, "n"))]).encode()
         return wire.join_delimited([first] + [tiny] * n)
+    if t == "big_frame":
+        rows = [wire.enc_row(("options", _opts())), wire.enc_row(("prefix", 0, "http://e/")),
+                wire.enc_row(("name", 0, "a")),
+                wire.enc_row(("triple", ("iri", 1, 0), ("iri", 0, 1), ("lit", "x" * rec["size"], None)))]
+        return wire.write_stream([wire.Frame(rows)], True)
     if t == "many_namespaces":
         rows = [wire.enc_row(("options", _opts(names=4000, prefixes=8, version=2))), wire.enc_row(("prefix", 1, "http://e/"))]
         for i in range(rec["count"]):
@@ -321,7 +336,7 @@ def parse_one(rec, data: bytes):
     else:
         pipe = Pipe(sim, data)
         pipe.read_cap = 4 * len(data) + 64
-        fobj, _ = open_frontend(fe, sim, pipe=pipe, policy="tape")
+        fobj, _ = open_frontend(fe, sim, pipe=pipe, policy=f"chunk:{rec['chunk']}" if rec.get("chunk") else "tape")
     n = 0
     try:
         if rec["consumer"] == "flat":
